@@ -33,8 +33,10 @@ def _alarm(signum, frame):
 
 
 class Section:
-    def __init__(self, name, cases, fn, horizon=None, chunk=None, desc=""):
+    def __init__(self, name, cases, fn, horizon=None, chunk=None, desc="", horizon_is_violation=False):
         self.name, self.cases, self.fn, self.horizon, self.chunk, self.desc = name, cases, fn, horizon, chunk, desc
+        # only for sections whose cases normally finish >100x faster than the horizon: "no answer at all" is then the defect itself
+        self.horizon_is_violation = horizon_is_violation
 
 
 def jdump(x):
@@ -56,7 +58,10 @@ def _run_one(sec, case):
     try:
         r = sec.fn(case)
     except Horizon:
-        r = {"ok": False, "inconclusive": "horizon %ss exceeded" % sec.horizon}
+        if getattr(sec, "horizon_is_violation", False):
+            r = {"ok": False, "msg": "no result within %ss (normally well under a second): the computation does not terminate" % sec.horizon, "sig": "nontermination"}
+        else:
+            r = {"ok": False, "inconclusive": "horizon %ss exceeded" % sec.horizon}
     except Exception as e:  # a crash of the oracle/harness or an unexpected library exception
         tb = traceback.extract_tb(e.__traceback__)
         if tb and tb[-1].filename.startswith(_VERIF_DIR) and isinstance(e, (ImportError, NameError, AttributeError, KeyError, IndexError, TypeError, AssertionError, ValueError, ZeroDivisionError)):
